@@ -35,6 +35,9 @@ def run(chk, tier):
     import zone as _zone
     nco = _zone.run_compact(chk, P, units=('memattrs.c',))
     chk.floor("R-COMPACT", "element moves inside one array", nco, 1)
+    import elemmove
+    nem = elemmove.run(chk, P, list(P.units))
+    chk.floor("R-COMPACT", "field-wise element moves in compacting functions", nem, 1)
     chk.rule("R-EXTENT", "bulk operations on targets/initiators arrays agree on their extent")
     extent.run(chk, P, list(P.units), fields=set(FIELDS))
     chk.rule("R-GUARD", "Capacity/Locality are read-only (CONVENIENCE test dominates every store of set_value); readers refresh an invalid cache before using target objects")
